@@ -14,7 +14,7 @@ CHECKS = {
         design="5 C01, 4.2, 4.5"),
     "C16": dict(
         technique="Coq proofs that the models of the section summaries, filters, risk levels and the unified summary projection (service/*_service.go, calculateSummary) equal their recomputation-from-items specs; bucket boundaries/operators regenerated from the Go AST; ties: real generateSummary/filter functions on synthetic item lists, every number of real JSON reports recomputed from the items; formats compared in-process and via the CLI (differential test)",
-        text="Props/C16.v (19 theorems, no axioms): complexity/CBO/LCOM/dead-code/clone summaries exact, extrema meaning, top-N lists, distribution partitions the items, bucket labels, risk counts sum and match thresholds, filters sound and complete (output = filter of the echoed predicate), unified summary is a projection. Each run: ~1000 synthetic item lists through the real summary/filter code vs model vs spec; 31 JSON reports of generated projects with ~4300 numbers recomputed from their own items; ~850 in-process renders (JSON = YAML as data, CSV/text/HTML headline numbers = JSON, all formats written incl. nil sections); ~70 CLI runs.",
+        text="Props/C16.v (19 theorems, no axioms): complexity/CBO/LCOM/dead-code/clone summaries exact, extrema meaning, top-N lists, distribution partitions the items, bucket labels, risk counts sum and match thresholds, filters sound and complete (output = filter of the echoed predicate), unified summary is a projection. Each run: ~1000 synthetic item lists through the real summary/filter code vs model vs spec; 39 JSON reports of generated projects with ~6800 numbers recomputed from their own items; 7 reports of risk-lattice projects (items exactly on / 1 / 2 off every threshold in effect, default and configured thresholds, CBO classes in 10 self-reference forms): every item's risk level = classification of its own reported metric by the echoed thresholds, summary risk counts = recount of the metrics (~6000 numbers); ~1060 in-process renders (JSON = YAML as data, CSV/text/HTML headline numbers = JSON, all formats written incl. nil sections); ~100 CLI runs.",
         note="partial: encoding/json, yaml.v3, encoding/csv, html/template are not modelled - the format clauses are a differential test, not a proof. C16-F1 (severity counts before the filter) repaired; C16-F2 (system.Summary never populated) open. CLI cross-run comparison is skipped when two runs of the analysis differ.",
         design="5 C16"),
     "C17": dict(
@@ -89,7 +89,7 @@ CHECKS = {
         design="5 C12"),
     "C13": dict(
         technique="Coq proof over a class-level syntax (84 positions) that the CBO model (walk over the parser.Node fields regenerated from cbo.go) equals the spec set on all positions, set-semantics laws (idempotence, permutation, additivity), risk table; refutations for the two open input classes; position x import-form matrix and metamorphic runs against the tagged driver and the CLI",
-        text="Props/C13.v (no axioms): C13_positions_all_visited, C13_exact_partial (all positions and import forms except module-qualified references and a generic as union operand, both refuted with witnesses), C13_count_distinct_not_self, C13_perm_invariant, C13_idempotent, C13_add_unrelated, C13_additive, C13_risk_table. Every run: 78 positions x 10 import forms, annotation shapes, multiplicities, threshold pairs, built-in table vs Python's own builtins, metamorphic variants, find-path probes tying the position table to ast_builder.go, CLI with show_zeros.",
+        text="Props/C13.v (no axioms): C13_positions_all_visited, C13_exact_partial (all positions and import forms except module-qualified references and a generic as union operand, both refuted with witnesses), C13_count_distinct_not_self, C13_perm_invariant, C13_idempotent, C13_add_unrelated, C13_additive, C13_risk_table. Every run: 78 positions x 10 import forms, annotation shapes, multiplicities, threshold pairs, built-in table vs Python's own builtins, metamorphic variants, find-path probes tying the position table to ast_builder.go, CLI with show_zeros, ~70 multi-file CLI runs (2-4 files in one run; a name imported in one file by from-import / import-as / module import and used un-imported in another as plain function / local class / undefined, both file-name orders) decided per class against the model of its own file.",
         note="open known findings: F29 (pkg.Class references never counted), F31 (generic as operand of |), F6 ([cbo] thresholds in analyze); F10, F13, F14, F15 repaired by fix: commits. rename-self proved only without self-mention (tested metamorphically on the implementation).",
         design="5 C13"),
     "C14": dict(
